@@ -85,6 +85,10 @@ impl Key {
             } else {
                 format!("{}/{}", to_parent, name)
             }
+        } else if !is_ref_url(&url) {
+            // a note whose name reads like an address or an anchor ("topic:rust", "#inbox"),
+            // linked from its own directory: "./" in front keeps it the name of a note
+            format!("./{}", url)
         } else {
             url
         }
